@@ -1,8 +1,11 @@
 package harness
 
 import (
+	"bytes"
 	"fmt"
 	"time"
+
+	"github.com/bool64/cache"
 )
 
 // scenOpts bounds what the Failover scenario generator may produce.
@@ -24,6 +27,7 @@ type scenOpts struct {
 	failPct     int
 	keys        [][]byte // key alphabet (default scenKeys)
 	errKinds    bool     // failing builders may return errors wrapping context / cache sentinel errors
+	restorePrep bool     // the initial backend state may arrive through Restore of another instance's dump
 }
 
 const (
@@ -65,13 +69,14 @@ func (cfg foCfg) clockMenu() []time.Duration {
 }
 
 type scenario struct {
-	keys    [][]byte // key alphabet of the scenario (scenKeys unless overridden)
-	cfg     foCfg
-	nkeys   int
-	states  []int
-	ages    []time.Duration
-	prefail []bool
-	gets    []*getSpec
+	viaRestore bool     // initial entries are written to another instance and restored from its dump
+	keys       [][]byte // key alphabet of the scenario (scenKeys unless overridden)
+	cfg        foCfg
+	nkeys      int
+	states     []int
+	ages       []time.Duration
+	prefail    []bool
+	gets       []*getSpec
 }
 
 func drawScenario(c *Case, o scenOpts) *scenario {
@@ -115,6 +120,8 @@ func drawScenario(c *Case, o scenOpts) *scenario {
 		sc.ages = append(sc.ages, age)
 		sc.prefail = append(sc.prefail, o.prefail && cfg.failedUpdateTTL != -1 && c.Weighted("prefail", 4, 1) == 1)
 	}
+
+	sc.viaRestore = o.restorePrep && c.Weighted("initial-state-via-restore", 3, 1) == 1
 
 	n := c.Int("ngets", o.minGets, o.maxGets)
 	ttls := o.callerTTLs
@@ -202,20 +209,49 @@ func (w *world) prepare(sc *scenario) {
 	}
 
 	span := maxAge + time.Second
+	target := w.be
+
+	if sc.viaRestore {
+		// the entries are written to another instance of the same kind and arrive through its dump
+		target = newCaseBackend(w.c, variantKinds[sc.cfg.variant], cache.Config{
+			TimeToLive: sc.cfg.backendTTL, ExpirationJitter: -1,
+			DeleteExpiredJobInterval: farFuture, DeleteExpiredAfter: farFuture, ItemsCountReportInterval: farFuture,
+		})
+
+		if w.cfg.boxVals {
+			target = boxBE{target}
+		}
+
+		w.c.Class("initial-state-via-restore")
+	}
 
 	for k := 0; k < sc.nkeys; k++ {
 		key := sc.key(k)
 
 		switch sc.states[k] {
 		case ksFresh:
-			_ = w.be.Write(ttlCtx(span+24*time.Hour), key, initToken(key))
-			w.prepWrites++
+			_ = target.Write(ttlCtx(span+24*time.Hour), key, initToken(key))
 			w.log.noteStored(string(key), initToken(key))
+
+			if !sc.viaRestore {
+				w.prepWrites++
+			}
 		case ksStaleRecent, ksStaleOld:
-			_ = w.be.Write(ttlCtx(span-sc.ages[k]), key, initToken(key))
-			w.prepWrites++
+			_ = target.Write(ttlCtx(span-sc.ages[k]), key, initToken(key))
 			w.log.noteStored(string(key), initToken(key))
+
+			if !sc.viaRestore {
+				w.prepWrites++
+			}
 		}
+	}
+
+	if sc.viaRestore {
+		var buf bytes.Buffer
+
+		_, derr := target.Dump(&buf)
+		_, rerr := w.be.Restore(&buf)
+		w.c.Assert(derr == nil && rerr == nil, "dump-restore-error", "preparing the backend through Dump/Restore = %v / %v", derr, rerr)
 	}
 
 	time.Sleep(span)
